@@ -20,6 +20,7 @@ ASSUMPTIONS = [
     "TUs are built with -ffp-contract=off so a*b+c is two roundings in the scalar reference and in the library's non-intrinsic code alike",
     "NaN payload/sign are not judged; the sign of zero is judged only for + - * neg abs sqrt; min/max are not judged on NaN or (+0,-0) pairs",
     "trees deeper than the bound are not claimed",
+    "complex element types: ring operations on integer-valued data (exact); division/abs/sqrt/comparisons and `tensor op= complex scalar` (not offered by the API) are not generated",
 ]
 
 MATH1 = ["cbrt", "exp", "exp2", "expm1", "log", "log10", "log2", "log1p", "sin", "cos", "tan", "asin", "acos", "atan", "sinh", "cosh", "tanh",
@@ -179,6 +180,8 @@ def cases(tier, cfg):
     else:
         types = ["f32", "f64", "i32", "i64"] if base else ["f32", "i64", "i32"]
     tl = trees(tier)
+    if base and (main or tier == "thorough"):
+        types = types + (["c64"] if tier == "quick" else ["c64", "c32"])
     for t in types:
         W = cfg.w(t)
         isint = t in ("i32", "i64")
@@ -187,9 +190,12 @@ def cases(tier, cfg):
             sizes = sorted({1, W + 1, 2 * W + 3}) if main else [2 * W + 3]
         if not base:
             sizes = [2 * W + 3]
+        cplx = t in ("c32", "c64")
         for e, group in tl:
             if isint and e.fl:
                 continue
+            if cplx and (group not in ("core1", "core2") or e.fl or e.boolean or e.kinds & {"abs", "sqrt", "/TT", "/Ts", "/sT"}):
+                continue     # complex: the ring operations only (division and abs are not lane-exact by construction)
             if tier == "quick" and not main and group in ("math", "cmp", "core3"):
                 continue
             if tier == "quick" and t in ("f64", "i64") and group not in ("core1", "cmp"):
@@ -205,7 +211,9 @@ def cases(tier, cfg):
                 out.append(_case(t, (n,), "assign" if not (group == "core1" and n == 2 * W + 3) else "ctor", e, group))
         # size sweep: one tree per node kind x forms
         reps = [bi("+", A, B), bi("*", A, C), un("neg", A), bi("-", C, A), un("abs", bi("*", A, B)), bi("/", A, B)]
-        if not isint:
+        if cplx:
+            reps = [bi("+", A, B), bi("*", A, C), un("neg", A), bi("-", C, A), bi("*", A, B)]
+        if not isint and not cplx:
             reps.append(un("sqrt", A))
         sweep = list(range(1, 2 * W + 2)) + [3 * W]
         if tier == "quick":
@@ -220,13 +228,15 @@ def cases(tier, cfg):
                 if tier == "quick":
                     forms = ("add", "mul") if ri % 2 == 0 else ("sub", "div")
                 for f in forms:
-                    if f == "div" and e.t.startswith("(a / b)"):
+                    if f == "div" and (e.t.startswith("(a / b)") or cplx):
                         continue
                     out.append(_case(t, (n,), f, e, "sweep"))
         # r op= scalar and r = scalar (scalar assignment forms), and 2-D / 3-D shapes with the same element count
         if base and (main or tier == "thorough"):
             for n in sorted({1, W, W + 1, 2 * W + 3}):
                 for f in ("assign", "add", "sub", "mul", "div"):
+                    if cplx and f != "assign":
+                        continue   # Tensor::operator op=(U) is offered for arithmetic U only: not part of the API for complex scalars
                     ct = CTYPE[t]
                     sc = {"assign": "c", "add": "O::add(r0v,c,s)", "sub": "O::sub(r0v,c,s)", "mul": "O::mul(r0v,c,s)", "div": "O::div(r0v,c,s)"}[f]
                     op = {"assign": "=", "add": "+=", "sub": "-=", "mul": "*=", "div": "/="}[f]
